@@ -76,3 +76,40 @@ def compare_parts(node: ast.AST):
     if isinstance(node, ast.Compare) and len(node.ops) == 1:
         return node.left, node.ops[0], node.comparators[0]
     return None
+
+
+def leaf_atoms(e: ast.AST) -> list[ast.AST]:
+    """Split a condition at and / or / not into its leaf atoms."""
+    if isinstance(e, ast.BoolOp):
+        out = []
+        for v in e.values:
+            out += leaf_atoms(v)
+        return out
+    if isinstance(e, ast.UnaryOp) and isinstance(e.op, ast.Not):
+        return leaf_atoms(e.operand)
+    return [e]
+
+
+def controlling_atoms(parents: dict, node: ast.AST, stop: ast.AST = None) -> list[ast.AST]:
+    """Leaf atoms of every condition `node` is (syntactically) control dependent on inside its function:
+    tests of enclosing if / elif / while / conditional expressions / comprehension filters and earlier operands of and/or."""
+    out: list[ast.AST] = []
+    child = node
+    par = parents.get(id(child))
+    while par is not None and par is not stop and not isinstance(par, (ast.FunctionDef, ast.AsyncFunctionDef, ast.Lambda, ast.ClassDef, ast.Module)):
+        if isinstance(par, (ast.If, ast.While)) and child is not par.test:
+            out += leaf_atoms(par.test)
+        elif isinstance(par, ast.IfExp) and child is not par.test:
+            out += leaf_atoms(par.test)
+        elif isinstance(par, ast.BoolOp):
+            idx = next((i for i, v in enumerate(par.values) if v is child), 0)
+            for v in par.values[:idx]:
+                out += leaf_atoms(v)
+        elif isinstance(par, (ast.ListComp, ast.SetComp, ast.GeneratorExp, ast.DictComp)):
+            for g in par.generators:
+                if child is not g:
+                    for c in g.ifs:
+                        out += leaf_atoms(c)
+        child = par
+        par = parents.get(id(child))
+    return out
